@@ -1,3 +1,4 @@
+import os
 """Harness build targets (all built from /repo's current working tree).
 Each family registers its targets in tools/targets_<family>.py as
     TARGETS = {"h_name": lambda: build("h_name", [repo srcs], "asan", harness_srcs=[...], libs=[...])}
@@ -11,6 +12,7 @@ TARGETS = {
     "h_safeint": lambda: build("h_safeint", [], "asan", harness_srcs=["h_safeint.cc"]),
     "h_drv": lambda: build("h_drv", LIBMP_SRCS, "plain", harness_srcs=DRV_SRCS),
     # the same driver under ASan+UBSan (memory errors on the driver paths: names files, suffix output, ...)
+    "h_drv_cov": lambda: build("h_drv_cov", LIBMP_SRCS, "cov", harness_srcs=DRV_SRCS),
     "h_drv_asan": lambda: build("h_drv_asan", LIBMP_SRCS, "asan-novptr", harness_srcs=DRV_SRCS),
 }
 
@@ -20,6 +22,9 @@ for _f in sorted(glob.glob(os.path.join(_here, "targets_*.py"))):
     TARGETS.update(_m.TARGETS)
 
 def get(name):
+    # VERIF_DRV_FLAVOR=cov: run the driver-based checks on the coverage build (tools/coverage.sh)
+    if name in ("h_drv", "h_drv_asan") and os.environ.get("VERIF_DRV_FLAVOR") == "cov":
+        name = "h_drv_cov"
     return TARGETS[name]()
 
-ALL = sorted(TARGETS)
+ALL = sorted(t for t in TARGETS if t != "h_drv_cov")   # the coverage build is a development aid
